@@ -23,6 +23,24 @@ pub enum Sched {
     PendingDrop,
 }
 
+/// An `io::Error` of kind `k` as a transport would really produce it: sometimes the bare kind, sometimes
+/// with a short custom message, sometimes with a LONG localised message (multi-byte characters at varying
+/// alignment around bytes 32…300) — code that stores, clips or formats the message must cope with all.
+pub fn fault(k: io::ErrorKind, salt: usize) -> io::Error {
+    match salt % 4 {
+        0 => k.into(),
+        1 => io::Error::new(k, "link down"),
+        2 => {
+            let mut m = "x".repeat(salt % 5);
+            while m.len() < 100 + (salt % 7) * 31 {
+                m.push_str(["连接被对端重置", "é", "😀 transport"][salt % 3]);
+            }
+            io::Error::new(k, m)
+        }
+        _ => io::Error::new(k, format!("{}\u{0}", "ошибка ввода-вывода ".repeat(1 + salt % 9))),
+    }
+}
+
 #[derive(Clone, Copy, Debug, PartialEq, Eq)]
 pub enum Term {
     Eof,
@@ -89,7 +107,7 @@ impl AsyncRead for ScriptReader {
                                 me.data.extend_from_slice(&more);
                                 me.term = Term::Eof;
                             }
-                            Poll::Ready(Err(k.into()))
+                            Poll::Ready(Err(fault(k, me.pos + me.requests.len())))
                         }
                     };
                 }
@@ -149,7 +167,7 @@ impl ScriptWriter {
         let n = match self.next() {
             Some(WItem::Pending) => return None,
             Some(WItem::Zero) => return Some(Ok(0)),
-            Some(WItem::Err(k)) => return Some(Err(k.into())),
+            Some(WItem::Err(k)) => return Some(Err(fault(k, self.written.len() + self.calls))),
             Some(WItem::Accept(n)) => n.max(1).min(total),
             Some(WItem::Gather) | None => total,
         };
@@ -185,7 +203,7 @@ impl AsyncWrite for ScriptWriter {
                 Poll::Pending
             }
             Some(WItem::Zero) => Poll::Ready(Ok(0)),
-            Some(WItem::Err(k)) => Poll::Ready(Err(k.into())),
+            Some(WItem::Err(k)) => Poll::Ready(Err(fault(k, me.written.len() + me.calls))),
             Some(WItem::Accept(n)) => {
                 let n = n.max(1).min(buf.len());
                 me.written.extend_from_slice(&buf[..n]);
@@ -233,7 +251,7 @@ impl io::Write for ScriptWriter {
                 Ok(buf.len())
             }
             Some(WItem::Zero) => Ok(0),
-            Some(WItem::Err(k)) => Err(k.into()),
+            Some(WItem::Err(k)) => Err(fault(k, self.written.len() + self.calls)),
             Some(WItem::Accept(n)) => {
                 let n = n.max(1).min(buf.len());
                 self.written.extend_from_slice(&buf[..n]);
